@@ -1,7 +1,620 @@
-//! C07: not implemented yet.
-use crate::util::Args;
+//! C07: the interpreter-based simulator (patronus::sim::Interpreter) on generated systems x
+//! operation histories.  One case per line:
+//!   (case ID (sys ...) (ops OP ...) (replay START LEN START2 same|differs|incomplete)?)
+//!   OP = (init zero R) | (init random SEED (oracle V ...) (det ok|differs|crashed) R) | (set SYM bBITS R) | (step R)
+//!      | (get E R) | (count R) | (snapshot R) | (restore K ID R)   -- K: the K-th snapshot taken, ID: the id passed
+//!   R  = (ok) | (bv W bBITS) | (arr IW DW bBITS ...) | (num N) | (panic "file:line")
+//!   V  = bBITS | (arr IW DW bBITS ...)            -- what InitValueGenerator produced, in allocation order
+//! The history is cut after the first panic (the interpreter may be half-updated then).
+use crate::dump::*;
+use crate::exprgen::*;
+use crate::rng::Rng;
+use crate::sexp::{Sexp, build_expr, read_cases};
+use crate::sysgen::*;
+use crate::util::*;
+use baa::{ArrayOps, BitVecOps, BitVecValue, Value};
+use patronus::expr::*;
+use patronus::sim::*;
+use patronus::system::*;
+use std::io::Write;
 
-pub fn run(_args: &Args) {
-    eprintln!("C07: harness module not implemented yet");
-    std::process::exit(2);
+#[derive(Clone)]
+enum Op {
+    Init(InitKind),
+    Set(ExprRef, BitVecValue),
+    Step,
+    Get(ExprRef),
+    Count,
+    Snapshot,
+    Restore(u32),
+}
+
+struct Case {
+    ctx: Context,
+    sys: TransitionSystem,
+    ops: Vec<Op>,
+    /// (start of h, length of h, start of the replayed copy of h): the history has the shape
+    /// pre ++ [snapshot] ++ h ++ between ++ [restore] ++ h'
+    replay: Option<(usize, usize, usize)>,
+}
+
+pub fn run(args: &Args) {
+    let mut rng = Rng::new(args.seed);
+    let mut out = std::io::BufWriter::new(std::fs::File::create(&args.out).expect("out file"));
+    let mut stats = Stats::default();
+    let mut distinct = std::collections::HashSet::new();
+    if args.get("probe").is_some() {
+        probe_misuse();
+        return;
+    }
+    if let Some(path) = args.get("cases-in") {
+        for c in read_cases(path).iter() {
+            let case = parse_case(c);
+            let id = c.list()[1].atom().to_string();
+            let (line, key) = run_case(&id, case, &mut stats);
+            distinct.insert(key);
+            stats.sample(&line, 3);
+            writeln!(out, "{line}").unwrap();
+        }
+    }
+    for id in 0..args.count {
+        let mut r = rng.fork();
+        let case = gen_case(&mut r, &mut stats, args);
+        let (line, key) = run_case(&format!("{id}"), case, &mut stats);
+        distinct.insert(key);
+        stats.sample(&line, 3);
+        writeln!(out, "{line}").unwrap();
+    }
+    stats.add("distinct_cases", distinct.len() as u64);
+    stats.write(&args.out);
+}
+
+const SMALL: &[WidthInt] = &[1, 1, 2, 3, 4, 8];
+const WIDE: &[WidthInt] = &[1, 2, 8, 16, 31, 32, 33, 63, 64, 65, 127, 128, 129];
+
+fn expr_cfg(widths: &[WidthInt], div_rem: bool) -> GenCfg {
+    GenCfg { max_depth: 3, arrays: true, div_rem, array_eq: false, widths: widths.to_vec(), max_index_width: 5, syms_per_type: 1, mul_max_width: 128 }
+}
+
+fn gen_with_pool(ctx: &mut Context, rng: &mut Rng, cfg: &GenCfg, pool: &[ExprRef], tpe: Type, depth: u32) -> ExprRef {
+    let mut g = ExprGen::new(ctx, rng, cfg.clone());
+    g.pool = Some(pool.to_vec());
+    match tpe {
+        Type::BV(w) => g.gen_bv(w, depth),
+        Type::Array(a) => g.gen_array(a.index_width, a.data_width, depth),
+    }
+}
+
+fn declared(sys: &TransitionSystem) -> Vec<ExprRef> {
+    sys.states.iter().map(|s| s.symbol).chain(sys.inputs.iter().copied()).collect()
+}
+
+fn gen_case(rng: &mut Rng, stats: &mut Stats, args: &Args) -> Case {
+    let mut ctx = Context::default();
+    let wide = rng.chance(2, 5);
+    let profile: Vec<WidthInt> = if let Some(w) = args.get("widths") { w.split(',').map(|x| x.parse().unwrap()).collect() } else if wide { WIDE.to_vec() } else { SMALL.to_vec() };
+    // few distinct widths per system, so that states and inputs can read each other
+    let n_widths = rng.range(1, 3) as usize;
+    let widths: Vec<WidthInt> = (0..n_widths).map(|_| *rng.pick(&profile)).collect();
+    stats.bump("distinct_widths_per_system", &format!("{n_widths}"));
+    stats.bump("width_profile", if wide { "wide" } else { "small" });
+    let cfg = SysCfg {
+        max_bv_states: if rng.chance(1, 5) { 6 } else { 4 },
+        max_inputs: 3,
+        array_state_chance: (1, 3),
+        widths: widths.clone(),
+        max_depth: if rng.chance(1, 6) { 4 } else { 1 + rng.below(3) as u32 },
+        max_bads: 1,
+        max_constraints: 1,
+        max_outputs: 2,
+        arrays_in_exprs: true,
+        init_reads_earlier: true,
+        div_rem: false,
+    };
+    let mut sys = gen_sys(&mut ctx, rng, &cfg);
+    let gcfg = expr_cfg(&widths, false);
+
+    // a second array state whose next function stores into it / copies the first one
+    if rng.chance(1, 6) {
+        let iw = if rng.chance(1, 4) { rng.range(4, 5) } else { rng.range(1, 3) } as WidthInt;
+        let dw = *rng.pick(&widths);
+        let sym = ctx.array_symbol("mem2", iw, dw);
+        let mut pool = declared(&sys);
+        pool.push(sym);
+        let tpe = sym.get_type(&ctx);
+        let init = if rng.chance(1, 2) { Some(gen_with_pool(&mut ctx, rng, &gcfg, &declared(&sys), tpe, 1)) } else { None };
+        let next = if rng.chance(4, 5) { Some(gen_with_pool(&mut ctx, rng, &gcfg, &pool, tpe, 2)) } else { None };
+        let pos = rng.below(sys.states.len() as u64 + 1) as usize;
+        sys.states.insert(pos, State { symbol: sym, init, next });
+        stats.inc("second_array_state");
+    }
+    // swap / shift-register shapes: the next value of a state is another state of the same type
+    // (simultaneous update is observable)
+    if sys.states.len() >= 2 && rng.chance(1, 5) {
+        let n = sys.states.len();
+        let rot = rng.chance(1, 2);
+        for k in 0..n {
+            let other = if rot { (k + 1) % n } else { (k + n - 1) % n };
+            let (a, b) = (sys.states[k].symbol, sys.states[other].symbol);
+            if a.get_type(&ctx) == b.get_type(&ctx) && a != b {
+                sys.states[k].next = Some(if rng.chance(1, 2) {
+                    b
+                } else if let Type::BV(_) = a.get_type(&ctx) {
+                    ctx.xor(a, b)
+                } else {
+                    b
+                });
+            }
+        }
+        stats.inc("swap_or_shift_register_shape");
+    }
+    // init expressions that read the state itself or a later state (sequential initialisation matters)
+    if rng.chance(1, 4) {
+        let k = rng.below(sys.states.len() as u64) as usize;
+        let tpe = sys.states[k].symbol.get_type(&ctx);
+        let pool = declared(&sys);
+        let e = gen_with_pool(&mut ctx, rng, &gcfg, &pool, tpe, 2);
+        sys.states[k].init = Some(e);
+        stats.inc("init_over_all_symbols");
+    }
+    // ill-formed systems (outside the property's domain; model and implementation must crash alike)
+    if rng.chance(1, 80) {
+        let s = sys.states[rng.below(sys.states.len() as u64) as usize].symbol;
+        sys.inputs.push(s);
+        stats.inc("illformed_duplicate_declaration");
+    }
+    if rng.chance(1, 80) {
+        let k = rng.below(sys.states.len() as u64) as usize;
+        if let Type::BV(w) = sys.states[k].symbol.get_type(&ctx) {
+            let u = ctx.bv_symbol("undeclared", w);
+            let old = sys.states[k].next.unwrap_or(sys.states[k].symbol);
+            let e = ctx.xor(old, u);
+            sys.states[k].next = Some(e);
+            stats.inc("illformed_undeclared_symbol_in_next");
+        }
+    }
+
+    // the history
+    let decl = declared(&sys);
+    let bv_decl: Vec<ExprRef> = decl.iter().copied().filter(|s| s.get_bv_type(&ctx).is_some()).collect();
+    let mut roots: Vec<ExprRef> = decl.clone();
+    roots.extend(sys.outputs.iter().map(|o| o.expr));
+    roots.extend(sys.bad_states.iter().copied());
+    roots.extend(sys.constraints.iter().copied());
+    for s in sys.states.iter() {
+        roots.extend(s.init);
+        roots.extend(s.next);
+    }
+    let replay_shape = rng.chance(1, 6);
+    let len = if replay_shape { rng.range(3, 24) as usize } else { rng.range(1, 60) as usize };
+    let mut ops: Vec<Op> = vec![];
+    let mut snapshots = 0u32;
+    let start_uninitialised = !replay_shape && rng.chance(1, 25);
+    if !start_uninitialised {
+        ops.push(gen_init(rng));
+    } else {
+        stats.inc("history_starts_uninitialised");
+    }
+    let observe_all = rng.chance(1, 2);
+    let allow_illformed = !replay_shape && rng.chance(1, 8);
+    while ops.len() < len {
+        let mut c = rng.below(100);
+        if c >= 98 && !allow_illformed {
+            c = 67;
+        }
+        let mutating = c < 62;
+        match c {
+            0..=27 => {
+                if bv_decl.is_empty() {
+                    ops.push(Op::Step);
+                } else {
+                    // inputs mostly, states sometimes
+                    let bv_inputs: Vec<ExprRef> = sys.inputs.iter().copied().filter(|s| s.get_bv_type(&ctx).is_some()).collect();
+                    let s = if !bv_inputs.is_empty() && rng.chance(3, 4) { *rng.pick(&bv_inputs) } else { *rng.pick(&bv_decl) };
+                    let w = s.get_bv_type(&ctx).unwrap();
+                    ops.push(Op::Set(s, lit_value(rng, w)));
+                }
+            }
+            28..=52 => ops.push(Op::Step),
+            53..=56 => {
+                ops.push(Op::Snapshot);
+                snapshots += 1;
+            }
+            57..=60 => {
+                if snapshots > 0 {
+                    ops.push(Op::Restore(rng.below(snapshots as u64) as u32));
+                } else {
+                    ops.push(Op::Step);
+                }
+            }
+            61 => ops.push(gen_init(rng)),
+            62..=66 => ops.push(Op::Count),
+            67..=84 => ops.push(Op::Get(*rng.pick(&roots))),
+            85..=97 => {
+                let w = *rng.pick(&widths);
+                let tpe = if rng.chance(1, 8) {
+                    Type::Array(ArrayType { index_width: rng.range(1, 3) as WidthInt, data_width: w })
+                } else {
+                    Type::BV(w)
+                };
+                let d = 1 + rng.below(3) as u32;
+                ops.push(Op::Get(gen_with_pool(&mut ctx, rng, &gcfg, &decl, tpe, d)));
+            }
+            _ => {
+                // outside the property's domain: the implementation must crash exactly where the model does
+                match rng.below(4) {
+                    0 => {
+                        let w = *rng.pick(&widths);
+                        let u = ctx.bv_symbol("nowhere", w);
+                        ops.push(Op::Set(u, lit_value(rng, w)));
+                        stats.inc("illformed_set_undeclared");
+                    }
+                    1 => {
+                        ops.push(Op::Restore(snapshots + rng.below(3) as u32));
+                        stats.inc("illformed_restore_bad_id");
+                    }
+                    2 => {
+                        let w = *rng.pick(&widths);
+                        let u = ctx.bv_symbol("nowhere", w);
+                        let e = if rng.chance(1, 2) { u } else { ctx.not(u) };
+                        ops.push(Op::Get(e));
+                        stats.inc("illformed_get_undeclared");
+                    }
+                    _ => {
+                        let w = *rng.pick(&widths);
+                        let e = gen_with_pool(&mut ctx, rng, &expr_cfg(&widths, true), &decl, Type::BV(w), 2);
+                        ops.push(Op::Get(e));
+                        stats.inc("get_with_divrem_enabled");
+                    }
+                }
+            }
+        }
+        if mutating && observe_all {
+            for s in decl.iter() {
+                ops.push(Op::Get(*s));
+            }
+        }
+    }
+    if !replay_shape {
+        return Case { ctx, sys, ops, replay: None };
+    }
+    // pre ++ [snapshot] ++ h ++ [read everything] ++ between ++ [restore] ++ h' ++ [read everything]
+    stats.inc("replay_shaped_histories");
+    let i = rng.range(1, ops.len() as u64 - 1) as usize;
+    let j = rng.range(i as u64 + 1, ops.len() as u64) as usize;
+    let count = |v: &[Op]| v.iter().filter(|o| matches!(o, Op::Snapshot)).count() as u32;
+    let k0 = count(&ops[..i]);
+    let bump = |o: &Op, from: u32, by: u32| match o {
+        Op::Restore(r) if *r >= from => Op::Restore(*r + by),
+        other => other.clone(),
+    };
+    let pre: Vec<Op> = ops[..i].to_vec();
+    let mut h: Vec<Op> = ops[i..j].iter().map(|o| bump(o, k0, 1)).collect();
+    for s in decl.iter() {
+        h.push(Op::Get(*s));
+    }
+    let between: Vec<Op> = ops[j..].iter().map(|o| bump(o, k0, 1)).collect();
+    let delta = count(&h) + count(&between);
+    let h2: Vec<Op> = h.iter().map(|o| bump(o, k0 + 1, delta)).collect();
+    let mut all = pre;
+    all.push(Op::Snapshot);
+    let start = all.len();
+    all.extend(h.iter().cloned());
+    all.extend(between);
+    all.push(Op::Restore(k0));
+    let start2 = all.len();
+    all.extend(h2);
+    Case { ctx, sys, ops: all, replay: Some((start, h.len(), start2)) }
+}
+
+fn gen_init(rng: &mut Rng) -> Op {
+    if rng.chance(1, 2) { Op::Init(InitKind::Zero) } else { Op::Init(InitKind::Random(rng.below(1 << 20))) }
+}
+
+fn parse_case(c: &Sexp) -> Case {
+    let mut ctx = Context::default();
+    let sys_x = c.list().iter().find(|x| matches!(x, Sexp::List(l) if !l.is_empty() && l[0] == Sexp::Atom("sys".into()))).expect("sys");
+    let sys = build_sys(&mut ctx, sys_x);
+    let mut ops = vec![];
+    for o in c.field("ops").unwrap_or(&[]) {
+        let l = o.list();
+        match l[0].atom() {
+            "init" => {
+                if l[1].atom() == "zero" {
+                    ops.push(Op::Init(InitKind::Zero));
+                } else {
+                    ops.push(Op::Init(InitKind::Random(l[2].num())));
+                }
+            }
+            "set" => {
+                let s = build_expr(&mut ctx, &l[1]);
+                ops.push(Op::Set(s, l[2].bits()));
+            }
+            "step" => ops.push(Op::Step),
+            "get" => {
+                let e = build_expr(&mut ctx, &l[1]);
+                ops.push(Op::Get(e));
+            }
+            "count" => ops.push(Op::Count),
+            "snapshot" => ops.push(Op::Snapshot),
+            "restore" => ops.push(Op::Restore(l[1].num() as u32)),
+            other => panic!("unknown op {other}"),
+        }
+    }
+    let replay = c.field("replay").map(|f| (f[0].num() as usize, f[1].num() as usize, f[2].num() as usize));
+    Case { ctx, sys, ops, replay }
+}
+
+fn all_indices(iw: WidthInt) -> Vec<BitVecValue> {
+    assert!(iw <= 10, "index width too large to enumerate");
+    (0..(1u64 << iw)).map(|i| BitVecValue::from_u64(i, iw)).collect()
+}
+
+fn dump_value(v: &Value) -> String {
+    match v {
+        Value::BitVec(b) => format!("(bv {} {})", b.width(), bv_tok(b)),
+        Value::Array(a) => dump_array_at(a, &all_indices(a.index_width())),
+    }
+}
+
+fn dump_oracle_value(v: &Value) -> String {
+    match v {
+        Value::BitVec(b) => bv_tok(b),
+        Value::Array(a) => dump_array_at(a, &all_indices(a.index_width())),
+    }
+}
+
+fn panic_result() -> String {
+    format!("(panic {})", quote(&last_panic_loc()))
+}
+
+fn run_case(id: &str, case: Case, stats: &mut Stats) -> (String, String) {
+    let Case { ctx, sys, ops, replay } = case;
+    // shape statistics
+    stats.bump("states", &format!("{}", sys.states.len()));
+    stats.bump("inputs", &format!("{}", sys.inputs.len()));
+    let n_arr = sys.states.iter().filter(|s| matches!(s.symbol.get_type(&ctx), Type::Array(_))).count();
+    stats.bump("array_states", &format!("{n_arr}"));
+    for s in sys.states.iter() {
+        stats.bump("state_shape", &format!("init={} next={}", s.init.is_some(), if s.next == Some(s.symbol) { "self".to_string() } else { s.next.is_some().to_string() }));
+        match s.symbol.get_type(&ctx) {
+            Type::BV(w) => stats.bump("symbol_width", &format!("{w}")),
+            Type::Array(a) => stats.bump("symbol_width", &format!("arr{}x{}", a.index_width, a.data_width)),
+        }
+    }
+    for s in sys.inputs.iter() {
+        if let Type::BV(w) = s.get_type(&ctx) {
+            stats.bump("symbol_width", &format!("{w}"));
+        }
+    }
+    stats.bump("history_len", &format!("{}", (ops.len() / 10) * 10));
+
+    let sys_txt = dump_sys(&ctx, &sys);
+    let decl = declared(&sys);
+    let mut sim = Interpreter::new(&ctx, &sys);
+    let mut txt = String::new();
+    let mut key = sys_txt.clone();
+    let mut executed = 0usize;
+    // ids the implementation returned, in order: `Restore(k)` restores the k-th snapshot taken
+    let mut returned_ids: Vec<u32> = vec![];
+    // what every executed `get` returned (None for the other operations)
+    let mut got: Vec<Option<String>> = vec![];
+    for op in ops.iter() {
+        got.push(None);
+        executed += 1;
+        let mut crashed = false;
+        match op {
+            Op::Init(kind) => {
+                stats.bump("ops", "init");
+                let r = guarded(|| sim.init(*kind));
+                let res = match &r {
+                    Ok(()) => "(ok)".to_string(),
+                    Err(_) => {
+                        crashed = true;
+                        panic_result()
+                    }
+                };
+                match kind {
+                    InitKind::Zero => {
+                        stats.bump("init_kind", "zero");
+                        txt.push_str(&format!(" (init zero {res})"));
+                        key.push_str(" iz");
+                    }
+                    InitKind::Random(seed) => {
+                        stats.bump("init_kind", "random");
+                        // the values the generator produces, in the allocation order of interpreter.rs:112-117
+                        let oracle = guarded(|| {
+                            let mut g = InitValueGenerator::from_kind(*kind);
+                            decl.iter().map(|s| dump_oracle_value(&g.generate(s.get_type(&ctx)))).collect::<Vec<_>>()
+                        })
+                        .unwrap_or_default();
+                        // determinism: a second simulator with the same seed holds the same values
+                        let det = if r.is_ok() {
+                            let same = guarded(|| {
+                                let mut other = Interpreter::new(&ctx, &sys);
+                                other.init(*kind);
+                                decl.iter().all(|s| dump_value(&other.get(*s)) == dump_value(&sim.get(*s)))
+                            });
+                            match same {
+                                Ok(true) => "ok",
+                                Ok(false) => "differs",
+                                Err(_) => "crashed",
+                            }
+                        } else {
+                            "ok"
+                        };
+                        if det != "ok" {
+                            stats.inc("random_init_not_deterministic");
+                        }
+                        txt.push_str(&format!(" (init random {seed} (oracle {}) (det {det}) {res})", oracle.join(" ")));
+                        key.push_str(&format!(" ir{seed}"));
+                    }
+                }
+            }
+            Op::Set(s, v) => {
+                stats.bump("ops", "set");
+                let r = guarded(|| sim.set(*s, v));
+                let res = if r.is_ok() {
+                    "(ok)".to_string()
+                } else {
+                    crashed = true;
+                    panic_result()
+                };
+                let t = format!(" (set {} {}", dump_expr(&ctx, *s), bv_tok(v));
+                key.push_str(&t);
+                txt.push_str(&format!("{t} {res})"));
+            }
+            Op::Step => {
+                stats.bump("ops", "step");
+                let r = guarded(|| sim.step());
+                let res = if r.is_ok() {
+                    "(ok)".to_string()
+                } else {
+                    crashed = true;
+                    panic_result()
+                };
+                key.push_str(" s");
+                txt.push_str(&format!(" (step {res})"));
+            }
+            Op::Get(e) => {
+                stats.bump("ops", "get");
+                // the dump reads the returned value through baa: keep it inside the guard
+                let r = guarded(|| dump_value(&sim.get(*e)));
+                let res = match &r {
+                    Ok(v) => v.clone(),
+                    Err(_) => {
+                        crashed = true;
+                        panic_result()
+                    }
+                };
+                *got.last_mut().unwrap() = Some(res.clone());
+                let t = format!(" (get {}", dump_expr(&ctx, *e));
+                key.push_str(&t);
+                txt.push_str(&format!("{t} {res})"));
+            }
+            Op::Count => {
+                stats.bump("ops", "count");
+                txt.push_str(&format!(" (count (num {}))", sim.step_count()));
+                key.push_str(" c");
+            }
+            Op::Snapshot => {
+                stats.bump("ops", "snapshot");
+                let r = guarded(|| sim.take_snapshot());
+                let res = match r {
+                    Ok(i) => {
+                        returned_ids.push(i);
+                        format!("(num {i})")
+                    }
+                    Err(_) => {
+                        crashed = true;
+                        panic_result()
+                    }
+                };
+                key.push_str(" p");
+                txt.push_str(&format!(" (snapshot {res})"));
+            }
+            Op::Restore(k) => {
+                stats.bump("ops", "restore");
+                // a snapshot that was taken is restored through the id the implementation returned for it;
+                // beyond that (ill-formed history) through an id that was never returned
+                let id: u32 = match returned_ids.get(*k as usize) {
+                    Some(id) => *id,
+                    None => returned_ids.iter().copied().max().map(|m| m + 1).unwrap_or(0) + (*k - returned_ids.len() as u32),
+                };
+                let r = guarded(|| sim.restore_snapshot(id));
+                let res = if r.is_ok() {
+                    "(ok)".to_string()
+                } else {
+                    crashed = true;
+                    panic_result()
+                };
+                key.push_str(&format!(" r{k}"));
+                txt.push_str(&format!(" (restore {k} {id} {res})"));
+            }
+        }
+        if crashed {
+            stats.inc("histories_ending_in_panic");
+            stats.bump("panic_at", &last_panic_loc());
+            break;
+        }
+    }
+    stats.add("ops_executed", executed as u64);
+    // direct check of "the continuation behaves as it did the first time": same reads, pairwise
+    let mut replay_txt = String::new();
+    if let Some((start, n, start2)) = replay {
+        let verdict = if executed == ops.len() && start2 + n == ops.len() {
+            stats.inc("replays_completed");
+            if (0..n).all(|k| got[start + k] == got[start2 + k]) { "same" } else { "differs" }
+        } else {
+            "incomplete"
+        };
+        stats.bump("replay_verdict", verdict);
+        replay_txt = format!(" (replay {start} {n} {start2} {verdict})");
+    }
+    (format!("(case {id} {sys_txt} (ops{txt}){replay_txt})"), key)
+}
+
+/// `--probe 1`: what `Simulator::set` does outside its contract (the calls the model answers with
+/// `Unmodelled`).  Prints to stdout; not part of any stream.  See REPORT-C07.md.
+fn probe_misuse() {
+    let show = |r: Result<String, String>| match r {
+        Ok(s) => s,
+        Err(m) => format!("panic: {m} @ {}", last_panic_loc()),
+    };
+    // P1: a value wider than the symbol spills into the next symbol's words
+    {
+        let mut ctx = Context::default();
+        let a = ctx.bv_symbol("a", 8);
+        let b = ctx.bv_symbol("b", 8);
+        let mut sys = TransitionSystem::new("p1".to_string());
+        sys.add_state(&ctx, State { symbol: a, init: None, next: None });
+        sys.add_state(&ctx, State { symbol: b, init: None, next: None });
+        let mut sim = Interpreter::new(&ctx, &sys);
+        sim.init(InitKind::Zero);
+        let v = BitVecValue::from_bit_str(&format!("1{}1", "0".repeat(68))).unwrap(); // 70 bits: 2^69 + 1
+        let r = guarded(|| {
+            sim.set(a, &v);
+            format!("a={} b={}", dump_value(&sim.get(a)), dump_value(&sim.get(b)))
+        });
+        println!("P1 set(a:bv8, 70-bit value 2^69+1), b:bv8 untouched?  {}", show(r));
+    }
+    // P2: a wider value that fits the same number of words leaves a non-canonical value
+    {
+        let mut ctx = Context::default();
+        let a = ctx.bv_symbol("a", 3);
+        let seven = ctx.bv_lit(&BitVecValue::from_u64(7, 3));
+        let eq7 = ctx.equal(a, seven);
+        let mut sys = TransitionSystem::new("p2".to_string());
+        sys.add_state(&ctx, State { symbol: a, init: None, next: None });
+        let mut sim = Interpreter::new(&ctx, &sys);
+        sim.init(InitKind::Zero);
+        let v = BitVecValue::from_u64(0xff, 8);
+        let r = guarded(|| {
+            sim.set(a, &v);
+            let x = sim.get(a);
+            let raw = match &x {
+                Value::BitVec(b) => format!("width {} words {:?}", b.width(), b.words()),
+                _ => String::new(),
+            };
+            format!("a: {raw}; (a == 7) = {}", dump_value(&sim.get(eq7)))
+        });
+        println!("P2 set(a:bv3, 8-bit value 0xff)  {}", show(r));
+    }
+    // P3: the key of an array symbol is used as an index into the bit-vector words
+    {
+        let mut ctx = Context::default();
+        let m = ctx.array_symbol("m", 2, 8);
+        let a = ctx.bv_symbol("a", 8);
+        let mut sys = TransitionSystem::new("p3".to_string());
+        sys.add_state(&ctx, State { symbol: m, init: None, next: None });
+        sys.add_state(&ctx, State { symbol: a, init: None, next: None });
+        let mut sim = Interpreter::new(&ctx, &sys);
+        sim.init(InitKind::Zero);
+        let v = BitVecValue::from_u64(5, 8);
+        let r = guarded(|| {
+            sim.set(m, &v);
+            format!("m={} a={}", dump_value(&sim.get(m)), dump_value(&sim.get(a)))
+        });
+        println!("P3 set(m:array, 8-bit value 5), a:bv8 untouched?  {}", show(r));
+    }
 }
